@@ -168,11 +168,10 @@ def _unwinder(prog, rep, rid, unw):
     tpar = unw.params[1]["n"]
     peeks = [S for S in call_sites(unw, PEEKS)]
     pops = [S for S in call_sites(unw, POPS)]
-    if len(peeks) != 1 or len(pops) != 1:
-        rep.fail(rid, "%s/shape" % unw.name, unw.loc(), "expected one peek and one pop, found %d/%d" % (len(peeks), len(pops)))
+    if not peeks or not pops:
+        rep.fail(rid, "%s/shape" % unw.name, unw.loc(), "expected a peek and a pop of the stream, found %d/%d" % (len(peeks), len(pops)))
         return
-    P, Q = peeks[0], pops[0]
-    if lv(P.node["a"][0]) != strm or lv(Q.node["a"][0]) != strm:
+    if any(lv(cfg.resolve(S.node["a"][0])) != strm for S in peeks + pops):
         rep.fail(rid, "%s/same-stream" % unw.name, unw.loc(), "peek and pop do not operate on the parameter stream")
     else:
         rep.ok(rid, "%s/same-stream" % unw.name, unw.loc(), "peek and pop both operate on %s" % strm)
@@ -216,17 +215,24 @@ def _unwinder(prog, rep, rid, unw):
                 if isinstance(e, dict) and e.get("k") == "call" and e.get("fn") in ("echs_event_0_p", "echs_nul_event_p"):
                     out.add(("null" if kind == "true" else "nonnull", "e"))
         return out
-    mf = MustFacts(cfg, gen=gen, kills=lambda x: set())
-    fa = mf.at(Q.b, Q.i) or set()
-    cmps = [x for x in fa if x[0] == "cmp"]
-    key = "%s/pop-guard" % unw.name
-    if ("nonnull", "e") in fa and len(cmps) == 1 and cmps[0][1] == "<" and cmps[0][2] == "instant_to_tstamp(%s.from)" % ev:
-        rep.ok(rid, key, unw.loc(Q.line), "pop only while the peeked event is non-null and instant_to_tstamp(%s.from) < %s (strict): "
-               "table {e<now: pop, e=now: keep, e>now: keep, null: stop}" % (ev, tpar))
-    else:
-        rep.fail(rid, key, unw.loc(Q.line),
-                 "the pop is guarded by %s; required: non-null and instant_to_tstamp(%s.from) < %s with a strict `<` "
-                 "(`<=` drops the occurrence that is due exactly now; a missing guard consumes future occurrences)" % (sorted(fa), ev, tpar))
+    # a new peek invalidates what was known about the previous event
+    # a pop or a new peek invalidates what was known about the previous head of the stream
+    def kills(x):
+        if isinstance(x, dict) and x.get("k") == "call" and x.get("fn") in tuple(PEEKS) + tuple(POPS):
+            return {"e", "instant_to_tstamp(%s.from)" % ev}
+        return set()
+    mf = MustFacts(cfg, gen=gen, kills=kills, disjunctive=False)
+    for qi, Q in enumerate(pops):
+        fa = mf.at(Q.b, Q.i) or set()
+        cmps = [x for x in fa if x[0] == "cmp"]
+        key = "%s/pop-guard" % unw.name if len(pops) == 1 else "%s/pop-guard#%d" % (unw.name, qi + 1)
+        if ("nonnull", "e") in fa and len(cmps) == 1 and cmps[0][1] == "<" and cmps[0][2] == "instant_to_tstamp(%s.from)" % ev:
+            rep.ok(rid, key, unw.loc(Q.line), "pop only while the peeked event is non-null and instant_to_tstamp(%s.from) < %s (strict): "
+                   "table {e<now: pop, e=now: keep, e>now: keep, null: stop}" % (ev, tpar))
+        else:
+            rep.fail(rid, key, unw.loc(Q.line),
+                     "the pop is guarded by %s; required: non-null and instant_to_tstamp(%s.from) < %s with a strict `<` "
+                     "(`<=` drops the occurrence that is due exactly now; a missing guard consumes future occurrences)" % (sorted(fa), ev, tpar))
 
 
 def r04_2(prog, rep, ctx):
